@@ -88,7 +88,7 @@ def worker(k, q, out):
                 sh(['git', '-C', wt, 'apply', d + '/patch.diff'])
             checks = meta.get('detected_by') or [meta['property']]
             feats = features_for(checks)
-            small = any(c in SMALL for c in checks)
+            small = any(c in SMALL for c in checks) and meta.get('check_variant') != 'default'
             sh(['rsync', '-a', '--delete', '--exclude', 'target', '/verif/mc/', run + '/mc/'])
             sh(['sed', '-i', f's#path = "/repo"#path = "{wt}"#', run + '/mc/Cargo.toml'])
             shutil.copy(wt + '/Cargo.lock', run + '/mc/Cargo.lock')
@@ -131,7 +131,8 @@ def main():
     for g in sorted(groups.values(), key=lambda g: -len(g)):
         q.put(g)
     out = open(BASE + '/results.jsonl', 'a')
-    ts = [threading.Thread(target=worker, args=(k, q, out)) for k in range(n)]
+    off = int(os.environ.get('REG_OFFSET', '0'))
+    ts = [threading.Thread(target=worker, args=(k + off, q, out)) for k in range(n)]
     for t in ts:
         t.start()
     for t in ts:
